@@ -86,7 +86,7 @@ func c01() {
 			if r.Intn(5) == 0 {
 				actions = append(append([]seccomp.Action{}, vlib.NamedActions...), vlib.RetUserNotif, 0x00050005, seccomp.Action(r.Uint32()))
 			}
-			p = vlib.GenNamesOnly(r, t, []int{0, 0, 1, 2}[r.Intn(4)], actions, vlib.NamedActions)
+			p = vlib.GenNamesOnly(r, t, []int{0, 0, 1, 2, 3}[r.Intn(5)], actions, vlib.NamedActions)
 		}
 		spec := vlib.SpecOf(p, t.Name)
 		c := vlib.Compile(p, t)
@@ -187,5 +187,5 @@ func c01() {
 		run.Require("decided_by_group_ge2", 1)
 	}
 	run.Finish(run.Counter("events"), int64(len(distinctProgs)),
-		"name-only policies (catalogue + PRNG: 1..8 groups, sizes incl. 0/1/253..258/half/whole table, table splits) compiled by the real compiler; every class of the nr partition induced by program constants and policy numbers x 2 adversarial argument fills, run through E1 (raw+typed) and compared with E2; distinct = distinct (program length, groups, return set) shapes")
+		"name-only policies (catalogue + PRNG: 1..8 and 9..150 groups, sizes incl. 0/1/253..258/half/whole table, table splits) compiled by the real compiler; every class of the nr partition induced by program constants and policy numbers x 2 adversarial argument fills, run through E1 (raw+typed) and compared with E2; distinct = distinct (program length, groups, return set) shapes")
 }
